@@ -163,3 +163,16 @@ class Other(Renderable):
 
 class OtherArgs(ArgsNamespace, render_cls=Other):
     foo: int = 0
+
+
+class SubjSGR(Subj):
+    """A subject that follows the documented extension contract for renderables whose
+    output uses SGR sequences: on an interrupted write it resets the attributes."""
+
+    def _handle_interrupted_draw_(self, render_data, render_args, output):
+        output.write("\x1b[0m")
+        output.flush()
+
+
+class SubjSGRArgs(ArgsNamespace, render_cls=SubjSGR):
+    unused: int = 0
